@@ -174,7 +174,8 @@ def readResp (r : ReadResp) : Response :=
 
 def rangeOfBody : Body → Option (Option RangeHdr)
   | .range r => some r
-  | _ => none
+  | .none => none | .invalid => none | .badType => none | .allocate _ _ => none | .write _ _ => none
+  | .rtw _ => none | .reason => none
 
 /-- shares of one mutable slot as (share number, data), in share-number order -/
 def slotShares (st : State) (si : String) : List (Nat × Bytes) :=
@@ -189,10 +190,14 @@ def applyTW (enabler : Bytes) (lease : Lease) (si : String) (ms : List (Key × M
     let cur : MutShare := (lookupK k ms).getD ⟨enabler, [], []⟩
     setK k { cur with data := mutWritev cur.data p.2.writes p.2.newLength, leases := addOrRenew cur.leases lease } ms
 
+/-- `_collect_mutable_shares_for_storage_index`: some existing share of the slot has another write enabler -/
+def enablerMismatch (st : State) (si : String) (enabler : Bytes) : Bool :=
+  st.muts.any fun e => e.1.1 = si ∧ e.2.enabler ≠ enabler
+
 def hRtw (st : State) (sec : SecretsDict) (si : String) (a : RtwArgs) : State × Response :=
   let enabler := getS sec .writeEnabler
   -- `_collect_mutable_shares_for_storage_index`: the write enabler is checked against *every* existing share
-  if (st.muts.any fun e => e.1.1 = si ∧ e.2.enabler ≠ enabler) then (st, ⟨401, .empty⟩)
+  if enablerMismatch st si enabler then (st, ⟨401, .empty⟩)
   else
     let shares := slotShares st si
     let good := testsPass shares a.tw
@@ -201,21 +206,53 @@ def hRtw (st : State) (sec : SecretsDict) (si : String) (a : RtwArgs) : State ×
     let st' := if good then { st with muts := a.tw.foldl (applyTW enabler lease si) st.muts } else st
     (st', ⟨200, .rtwResult ⟨good, reads⟩⟩)
 
+/-! projections of the payload, written out per constructor (no overlapping patterns) -/
+
+def bodyIsBadType : Body → Bool
+  | .badType => true
+  | .none => false | .invalid => false | .allocate _ _ => false | .write _ _ => false | .range _ => false
+  | .rtw _ => false | .reason => false
+
+/-- a CBOR route that did not get a valid CBOR body: 415 for a wrong Content-Type, else the CDDL error 400 -/
+def rejectBody (b : Body) : Response := if bodyIsBadType b then ⟨415, .empty⟩ else ⟨400, .text "cddl"⟩
+
+def asAllocate : Body → Option (List Nat × Nat)
+  | .allocate ns size => some (ns, size)
+  | .none => none | .invalid => none | .badType => none | .write _ _ => none | .range _ => none
+  | .rtw _ => none | .reason => none
+
+def asWrite : Body → Option (Option ContentRange × Bytes)
+  | .write cr d => some (cr, d)
+  | .none => none | .invalid => none | .badType => none | .allocate _ _ => none | .range _ => none
+  | .rtw _ => none | .reason => none
+
+def asRtw : Body → Option RtwArgs
+  | .rtw a => some a
+  | .none => none | .invalid => none | .badType => none | .allocate _ _ => none | .range _ => none
+  | .write _ _ => none | .reason => none
+
+def isReason : Body → Bool
+  | .reason => true
+  | .none => false | .invalid => false | .badType => false | .allocate _ _ => false | .range _ => false
+  | .write _ _ => false | .rtw _ => false
+
+def hCorrupt (st : State) (body : Body) : State × Response :=
+  if isReason body then ({ st with advisories := st.advisories + 1 }, ⟨200, .empty⟩) else (st, rejectBody body)
+
 def handle (st : State) (m : Matched) (sec : SecretsDict) (body : Body) : State × Response :=
   let si := m.args.si
   let n := m.args.shnum
   match m.route with
   | .version => (st, ⟨200, .version⟩)
   | .allocate =>
-    match body with
-    | .allocate shnums size => hAllocate st sec si shnums size
-    | .badType => (st, ⟨415, .empty⟩)
-    | _ => (st, ⟨400, .text "cddl"⟩)
+    match asAllocate body with
+    | some p => hAllocate st sec si p.1 p.2
+    | none => (st, rejectBody body)
   | .abort => hAbort st sec si n
   | .write =>
-    match body with
-    | .write cr data => hWrite st sec si n cr data
-    | _ => hWrite st sec si n none []
+    match asWrite body with
+    | some p => hWrite st sec si n p.1 p.2
+    | none => hWrite st sec si n none []                 -- no Content-Range header
   | .listImm => (st, ⟨200, .shares (immNums st si)⟩)
   | .readImm =>
     match lookupK (si, n) st.imm with
@@ -227,16 +264,11 @@ def handle (st : State) (m : Matched) (sec : SecretsDict) (body : Body) : State 
   | .corruptImm =>
     match lookupK (si, n) st.imm with
     | none => (st, ⟨404, .empty⟩)
-    | some _ =>
-      match body with
-      | .reason => ({ st with advisories := st.advisories + 1 }, ⟨200, .empty⟩)
-      | .badType => (st, ⟨415, .empty⟩)
-      | _ => (st, ⟨400, .text "cddl"⟩)
+    | some _ => hCorrupt st body
   | .rtw =>
-    match body with
-    | .rtw a => hRtw st sec si a
-    | .badType => (st, ⟨415, .empty⟩)
-    | _ => (st, ⟨400, .text "cddl"⟩)
+    match asRtw body with
+    | some a => hRtw st sec si a
+    | none => (st, rejectBody body)
   | .readMut =>
     match lookupK (si, n) st.muts with
     | none => (st, ⟨404, .empty⟩)
@@ -245,10 +277,7 @@ def handle (st : State) (m : Matched) (sec : SecretsDict) (body : Body) : State 
   | .corruptMut =>
     -- `get_shares`: any share file of the storage index, whatever its type
     if (lookupK (si, n) st.muts).isNone && (lookupK (si, n) st.imm).isNone then (st, ⟨404, .empty⟩)
-    else match body with
-      | .reason => ({ st with advisories := st.advisories + 1 }, ⟨200, .empty⟩)
-      | .badType => (st, ⟨415, .empty⟩)
-      | _ => (st, ⟨400, .text "cddl"⟩)
+    else hCorrupt st body
 
 def secretsMessage : SecretsError → String
   | .badHeader => "Bad header value(s)"
